@@ -446,6 +446,13 @@ try:
                            r"if ptr\.is_null\(\) \{ return Err\(Error::from\(std::io::ErrorKind::OutOfMemory\)\); \} libc::mprotect\(ptr\.cast\(\), size, libc::PROT_EXEC \| libc::PROT_WRITE\); std::slice::from_raw_parts_mut\(ptr, size\) \}; "
                            r"let contents: &'a mut \[u8\] = unsafe \{ mem::transmute\(contents\) \}; let mut mem = JitMemory \{ contents, write_enabled: true, (?:#\[cfg\(rbpf_verif\)\] verif_pass1_size: counter\.offset, )?layout, offset: 0, \}; "
                            r"let mut jit = JitCompiler::new\(\); jit\.jit_compile\(&mut mem, prog, use_mbuff, update_data_ptr, helpers\)\?; jit\.resolve_jumps\(&mut mem\)\?; Ok\(mem\)", nbody))
+    nn = re.search(r'#\[cfg\(not\(feature = "std"\)\)\]\s*pub fn new\(', txt)
+    nnb0 = txt.index("{", txt.index("Result<JitMemory<'a>, Error>", nn.end())); nnbody = " ".join(txt[nnb0 + 1:balanced(txt, nnb0) - 1].split())
+    nw2 = bool(re.fullmatch(r"let mut counter = JitMemory::counter\(\); let mut jit = JitCompiler::new\(\); jit\.jit_compile\(&mut counter, prog, use_mbuff, update_data_ptr, helpers\)\?; "
+                            r"let size = round_up_to_page\(counter\.offset\.max\(PAGE_SIZE\)\); let contents = executable_memory; if contents\.len\(\) < size \{ return Err\(Error::new\((?:[^()]|\([^()]*\))*\)\); \} "
+                            r"if contents\.as_ptr\(\) as usize % PAGE_SIZE != 0 \{ return Err\(Error::new\((?:[^()]|\([^()]*\))*\)\); \} "
+                            r"let mut mem = JitMemory \{ contents, write_enabled: true, (?:#\[cfg\(rbpf_verif\)\] verif_pass1_size: counter\.offset, )?offset: 0, \}; "
+                            r"let mut jit = JitCompiler::new\(\); jit\.jit_compile\(&mut mem, prog, use_mbuff, update_data_ptr, helpers\)\?; jit\.resolve_jumps\(&mut mem\)\?; Ok\(mem\)", nnbody))
     pg = re.search(r"const PAGE_SIZE: usize = (\d+);", txt)
     ru = re.search(r"fn round_up_to_page\((?:value|size): usize\) -> usize \{ (.*?) \}", " ".join(txt.split()))
     ru_ok = bool(ru and ru.group(1).replace(" ", "") in ("(size+PAGE_SIZE-1)&!(PAGE_SIZE-1)", "(value+PAGE_SIZE-1)&!(PAGE_SIZE-1)"))
@@ -455,11 +462,11 @@ try:
     lines += ["/-- `emit_bytes!`: the data is written at the offset when writing is enabled (the assertion admits a write that ends exactly at the buffer's end), the offset advances by the",
               "    data's size either way; `emit1/2/4/8` are that macro at u8 / u16 / u32 / u64 -/", "def emitBytesShape : Bool := %s" % ("true" if eb and ew else "false")]
     lines += ["/-- `resolve_jumps` and the std `JitMemory::new` have the shapes the model's `resolveJumps` / `compile` / `bufferSize` mirror -/",
-              "def resolveJumpsShape : Bool := %s" % ("true" if rj else "false"), "def jitMemoryNewShape : Bool := %s" % ("true" if nw else "false"),
+              "def resolveJumpsShape : Bool := %s" % ("true" if rj else "false"), "def jitMemoryNewShape : Bool := %s" % ("true" if nw else "false"), "/-- the no_std `JitMemory::new`: size-only pass, the same page-rounded size as the std build, an `Err` when the caller's memory is smaller than that or not page-aligned, second pass into that memory, `resolve_jumps` -/", "def jitMemoryNewNoStdShape : Bool := %s" % ("true" if nw2 else "false"),
               "def pageSizeSrc : Nat := %s" % (pg.group(1) if pg else "0"), "def roundUpShape : Bool := %s" % ("true" if ru_ok else "false"), ""]
 except Exception as ex:
     problems.append("resolve_jumps / JitMemory::new: %s" % ex)
-    lines += ["def emitBytesShape : Bool := false", "def resolveJumpsShape : Bool := false", "def jitMemoryNewShape : Bool := false", "def pageSizeSrc : Nat := 0", "def roundUpShape : Bool := false", ""]
+    lines += ["def emitBytesShape : Bool := false", "def resolveJumpsShape : Bool := false", "def jitMemoryNewShape : Bool := false", "def jitMemoryNewNoStdShape : Bool := false", "def pageSizeSrc : Nat := 0", "def roundUpShape : Bool := false", ""]
 for p in problems: lines.append("/- not translated: %s -/" % p.replace("-/", "- /"))
 lines += ["end Rbpf.Generated.Jit", ""]
 new = "\n".join(lines)
